@@ -29,6 +29,7 @@ LEVEL_TEXT = (
     "compartment size applied (amount vs concentration decided from the imported initial value, compartment size 2). "
     "Two-document sessions (different stems, same stem in two directories, first model re-evaluated) must not interfere."
     " Also: laws with abs / min / max / roots / fractional powers, chains of initial assignments (also on the compartment), identifier variants with Python builtins and with the generated module's reserved ids next to '<id>_fn', documents revised in place and read again within the same second, stems that differ by one digit; amount vs concentration is decided structurally (a '<species>_amount' derived next to the variable)."
+    " Also: builtins next to '<builtin>_' siblings (eight pairs), a law naming every element, the compartment inside a sum, coefficients that follow a species or have a rate rule and an initial assignment of their own (evaluated away from the initial value)."
 )
 LEVEL_NOTE = "trusted: libsbml to write the documents; third-party pysbml is part of the import path and only observable through mxlpy.sbml.read"
 RULE = (
